@@ -6,6 +6,8 @@ import GqlgenVerif.Model.WsClose
 import GqlgenVerif.Gen.WsCloseReasons
 import GqlgenVerif.Model.ReqHist
 import GqlgenVerif.Gen.ParseGate
+import GqlgenVerif.Model.ReadSeeker
+import GqlgenVerif.Gen.ReaderFacts
 /-! Line-protocol driver for C10: runs the `Upload` model (with the guards / decode sites regenerated
 from /repo) on the cases printed by `go/harness/c10`. -/
 open GqlgenVerif GqlgenVerif.Upload
@@ -205,6 +207,22 @@ def wlSpec (hs obs hr : String) : String :=
   | _, _, _ => "bad-op"
 
 open GqlgenVerif.WsClose in
+/-- `wcsite <code> <hex reason>`: is this close one the transport has once a connection is initialised
+(a regenerated site of `run` / `closeOnCancel`: literal reason, or prefix ++ client string ++ suffix)? -/
+def wcSite (code hr : String) : String :=
+  match code.toNat?, unhex hr with
+  | some c, some r =>
+    let hit := Gen.WsCloseReasons.sites.filter fun s =>
+      (s.fn == "run" || s.fn == "closeOnCancel") && s.code == c &&
+      (match s.reason with
+       | .lit t => t == r
+       | .echo pre suf _ _ => pre.length + suf.length ≤ r.length && r.take pre.length == pre && r.drop (r.length - suf.length) == suf)
+    match hit with
+    | s :: _ => "site:" ++ s.fn
+    | [] => "none"
+  | _, _ => "bad-op"
+
+open GqlgenVerif.WsClose in
 /-- gorilla's rule for a close frame with a reason of `n` bytes -/
 def cfRun (n : Nat) : String :=
   match frame 4000 (List.replicate n 0x72) with
@@ -240,6 +258,59 @@ def hsRun (g : Gate) (cap apq tbl steps : String) : String :=
   | some c, some xs => ";".intercalate ((runAll g c (apq == "1") cls St.init xs).map outName)
   | _, _ => "bad-op"
 
+/-! ### `rs`: what user code does with the readers of an upload (Model/ReadSeeker) -/
+section ReadSeekerOps
+open GqlgenVerif.ReadSeeker
+
+def rsInt (s : String) : Option Int :=
+  if s.startsWith "-" then (s.drop 1).toNat?.map fun n => -(n : Int) else s.toNat?.map fun n => (n : Int)
+
+/-- `<k>r<n>` | `<k>s<whence>:<off>` -/
+def rsOp (t : String) : Option (Nat × Op) :=
+  let ds := t.toList.takeWhile Char.isDigit
+  let rest := t.toList.drop ds.length
+  match (String.ofList ds).toNat?, rest with
+  | some k, 'r' :: n => (String.ofList n).toNat?.map fun n => (k, .read n)
+  | some k, 's' :: a =>
+    match (String.ofList a).splitOn ":" with
+    | [w, o] => match rsInt w, rsInt o with
+      | some w, some o => some (k, .seek w o)
+      | _, _ => none
+    | _ => none
+  | _, _ => none
+
+def rsReader (t : String) : Option (Kind × List Nat) :=
+  match t.splitOn ":" with
+  | ["m", h] => (unhex h).map fun d => (Kind.mem, d)
+  | ["f", h] => (unhex h).map fun d => (Kind.file, d)
+  | _ => none
+
+def rsShow : ReadSeeker.Res → String
+  | .data bs e => "d" ++ hex bs ++ (if e then ":e" else ":n")
+  | .at a => "a" ++ toString a
+  | .refused => "x"
+  | .panic => "P"
+
+def rsRun (readers script : String) : String :=
+  match (readers.splitOn ";").mapM rsReader, (script.splitOn ",").mapM rsOp with
+  | some rs, some ops =>
+    if ops.any (fun o => o.1 ≥ rs.length) then "bad-op" else
+    let F := Gen.ReaderFacts.facts
+    let get := fun (k : Nat) => rs.getD k (Kind.mem, [])
+    let impl := fun (k : Nat) (p : Int) (o : Op) =>
+      match get k with
+      | (.mem, d) => stepImpl F d p o
+      | (.file, d) => stepSpec .file d p o
+    let spec := fun (k : Nat) (p : Int) (o : Op) => stepSpec (get k).1 (get k).2 p o
+    let mem := fun (k : Nat) (p : Int) (o : Op) => stepSpec .mem (get k).2 p o
+    let init := fun (k : Nat) => match get k with | (.mem, _) => F.initPos | _ => 0
+    let sh := fun (l : List (Nat × ReadSeeker.Res)) => ",".intercalate (l.map fun x => rsShow x.2)
+    "impl=" ++ sh (runMulti impl init ops) ++ " spec=" ++ sh (runMulti spec (fun _ => 0) ops)
+      ++ " mem=" ++ sh (runMulti mem (fun _ => 0) ops) ++ " perPath=" ++ toString F.perPath
+  | _, _ => "bad-op"
+
+end ReadSeekerOps
+
 /-- one line in, one line out -/
 def step (line : String) : String :=
   match line.splitOn " " with
@@ -261,6 +332,10 @@ def step (line : String) : String :=
     | none => "bad-op"
   | ["hs", cap, apq, tbl, steps] => hsRun Gen.ParseGate.gate cap apq tbl steps
   | ["hsall", cap, apq, tbl, steps] => hsRun GqlgenVerif.ReqHist.Gate.all cap apq tbl steps   -- the complete gate (search for a failing input when the regenerated one is not)
+  | ["rs", readers, script] => rsRun readers script
+  | "wc" :: _ => "any"
+  | "xc" :: _ => "any"
+  | ["wcsite", code, hr] => wcSite code hr
   | ["gate"] => reprStr Gen.ParseGate.gate
   | ["guards"] => reprStr guards
   | _ => "bad-op"
